@@ -1,4 +1,5 @@
 import CffiVerif.Model.LayoutDecl
+import CffiVerif.Generated.LayoutExprs
 /-
 Model of `b_complete_struct_or_union_lock_held` (src/c/_cffi_backend.c, the
 field loop and the final rounding) for the flags this platform selects in
@@ -8,14 +9,22 @@ field loop and the final rounding) for the flags this platform selects in
 The call made for a cdef without "..." has totalsize = totalalignment = -1 and no
 forced field offsets, so the `detect_custom_layout` paths are not taken.
 
-The statements of the C function are transcribed one by one; every C variable of
-the loop keeps its name.  `x & ~(a-1)` is written `x - x % a`
-(`Proofs/Layout.lean: andnot_eq_alignDown` shows the two agree on 64-bit words
-when `a` is a power of two).  C `int`/`Py_ssize_t` overflow is not modelled.
+The *control structure* of the C function (order of statements, nesting of the
+branches) is transcribed by hand, every C variable of the loop keeps its name.
+Every arithmetic expression and every condition of the path is a definition of
+`Generated/LayoutExprs.lean`, which `translate/layout_exprs.py` re-extracts from
+the working tree on every check run (and which refuses to run when the shape of
+the function changed).  So a changed constant, operator or comparison in the C
+source changes the term the kernel checks the C01 theorems against.
+`Proofs/Layout.lean` gives the arithmetic meaning of the generated definitions
+(`stepC_eq_ref`: the hand-written reference form used by the proofs; `x & ~(a-1)`
+is `x - x % a` for the alignments 1, 2, 4, 8, 16).  C `int`/`Py_ssize_t`
+overflow is not modelled (values are `Nat`).
 The MSVC / ARM / big-endian branches are not modelled (never taken on x86-64
 Linux through `ffi.cdef`).
 -/
 namespace CffiVerif.Layout
+open CffiVerif.Generated
 
 /-- exception *type* raised by the backend -/
 inductive Reject where
@@ -40,19 +49,19 @@ structure St where
 deriving DecidableEq, Repr
 
 /-- `alignment = 1; byteoffset = 0; bitoffset = 0; byteoffsetmax = 0;` -/
-def St.init : St := ⟨0, 0, 1, 0⟩
+def St.init : St := ⟨LX.initByteoffset, LX.initBitoffset, LX.initAlignment, LX.initByteoffsetmax⟩
 
 /-- `#define ROUNDUP_BYTES(bytes, bits) ((bytes) + ((bits) > 0))` -/
-def roundupBytes (bytes bits : Nat) : Nat := bytes + (if bits > 0 then 1 else 0)
+def roundupBytes (bytes bits : Nat) : Nat := LX.roundupBytes bytes bits
 
-/-- `x & ~(a-1)` -/
-def alignDown (x a : Nat) : Nat := x - x % a
+/-- `field_offset_bytes = byteoffset; field_offset_bytes &= ~(falign - 1);` -/
+def alignDown (x a : Nat) : Nat := LX.fieldOffsetBytes x a
 
-/-- `(x + a-1) & ~(a-1)` -/
-def alignUp (x a : Nat) : Nat := alignDown (x + (a - 1)) a
+/-- `(byteoffset + falign-1) & ~(falign-1)` -/
+def alignUp (x a : Nat) : Nat := LX.nbfAlign x a
 
 /-- `SF_DEFAULT_PACKING` (not MS_WIN32): "a huge power of two" -/
-def defaultPacking : Nat := 0x40000000
+def defaultPacking : Nat := LX.defaultPacking
 
 /-- The prologue:
 ```
@@ -63,16 +72,34 @@ else                    sflags |= SF_PACKED;
 with the arguments `finish_backend_type` passes for `tp.packed = p`
 (`p == 1`: sflags = 8; otherwise sflags = 0, pack = p).  Result: `(pack, sflags & SF_PACKED)`. -/
 def packCfg (p : Nat) : Nat × Bool :=
-  if p = 1 then (1, true)
-  else if p = 0 then (defaultPacking, false)
+  if p = 1 then (LX.packedPack, true)
+  else if LX.noPackCond (p : Int) then (LX.defaultPacking, false)
   else (p, true)
 
-/-- record the running maximum (end of the loop body) -/
+/-- record the running maximum (end of the loop body):
+`if (ROUNDUP_BYTES(byteoffset, bitoffset) > byteoffsetmax) byteoffsetmax = ROUNDUP_BYTES(byteoffset, bitoffset);` -/
 def St.bump (alignment byteoffset bitoffset byteoffsetmax : Nat) : St :=
   { byteoffset := byteoffset, bitoffset := bitoffset, alignment := alignment,
     byteoffsetmax :=
-      if roundupBytes byteoffset bitoffset > byteoffsetmax
-      then roundupBytes byteoffset bitoffset else byteoffsetmax }
+      if LX.maxCond byteoffset bitoffset byteoffsetmax
+      then LX.maxNew byteoffset bitoffset else byteoffsetmax }
+
+/-- `sflags & SF_GCC_ARM_BITFIELDS` and `sflags & SF_MSVC_BITFIELDS` after `complete_sflags` on this
+platform (not Windows, not ARM: `SF_GCC_X86_BITFIELDS` is added; the translator checks that) -/
+def sfArm : Nat := 0
+def sfMsvc : Nat := 0
+
+/-- `int fbitsize = -1` unless the field item carries a bit size -/
+def fbitsizeOf (bits : Option Nat) : Int :=
+  match bits with
+  | some w => (w : Int)
+  | none => -1
+
+/-- `PyUnicode_GetLength(fname)`: only ever compared with 0 -/
+def fnamelenOf (named : Bool) : Nat := if named then 1 else 0
+
+/-- a flag test `x & FLAG` as a C int: only its truth value is used -/
+def flagVal (b : Bool) : Nat := if b then 1 else 0
 
 /-- One iteration of `for (i=0; i<nb_fields; i++)`.  `isLast` is `i == nb_fields - 1`.
 Returns the new state and the fields appended to the `ct_extra` chain. -/
@@ -81,62 +108,77 @@ def stepC (isUnion : Bool) (pack : Nat) (sfPacked : Bool) (isLast : Bool)
   -- if (cffi_get_size(ftype) < 0) { only an array, not a bit-field, in last position }
   if f.size.isNone && !(f.isArray && f.bits.isNone && isLast) then .error .typeError else
   -- if (is_union) byteoffset = bitoffset = 0;
-  let byteoffset := if isUnion then 0 else s.byteoffset
-  let bitoffset := if isUnion then 0 else s.bitoffset
+  let byteoffset := if isUnion then LX.unionReset else s.byteoffset
+  let bitoffset := if isUnion then LX.unionReset else s.bitoffset
   let falignorg := f.align
-  let falign := if pack < falignorg then pack else falignorg
-  -- GCC: anonymous bitfields (of any size) don't cause alignment
-  let doAlign := match f.bits with
-    | some _ => f.named
-    | none => true
-  let alignment := if s.alignment < falign && doAlign then falign else s.alignment
+  let falign := LX.falign pack falignorg
+  let fbitsizeI := fbitsizeOf f.bits
+  let fnamelen := fnamelenOf f.named
+  -- do_align = 1; if (!(sflags & ARM) && fbitsize >= 0) { if (!(sflags & MSVC)) do_align = namelen > 0; else ... }
+  let doAlign :=
+    if LX.doAlignGuard sfArm fbitsizeI then
+      if LX.gccStyle sfMsvc then LX.doAlignGcc fnamelen else LX.doAlignMsvc fbitsizeI
+    else LX.doAlignDefault
+  let alignment := if LX.alignUpdateCond s.alignment falign doAlign then LX.alignUpdateNew falign else s.alignment
   match f.bits with
   | none =>
     -- not a bitfield: pad to the next byte, then to 'falign'
-    let byteoffset := alignUp (roundupBytes byteoffset bitoffset) falign
+    let byteoffset := LX.nbfAlign (LX.nbfRoundup byteoffset bitoffset) falign
     let outs : List CField :=
-      if !f.named && f.isAgg then
+      if LX.anonCond fnamelen (flagVal f.isAgg) then
         -- a nested anonymous struct or union: its fields are copied at byteoffset + cf_offset
-        f.sub.map fun c => { c with offset := byteoffset + c.offset }
+        f.sub.map fun c => { c with offset := LX.anonOffset byteoffset c.offset }
       else
-        [{ offset := byteoffset, bits := none, fsize := f.size }]
+        [{ offset := LX.nbfOffset byteoffset, bits := none, fsize := f.size }]
     -- if (ftype->ct_size >= 0) byteoffset += ftype->ct_size;
     let byteoffset := match f.size with
-      | some n => byteoffset + n
+      | some n => LX.nbfAdvance byteoffset n
       | none => byteoffset
-    .ok (St.bump alignment byteoffset 0 s.byteoffsetmax, outs)
+    .ok (St.bump alignment byteoffset LX.nbfBitoffset s.byteoffsetmax, outs)
   | some fbitsize =>
     if !f.intlike then .error .typeError else     -- "cannot be a bit field"
     match f.size with
     | none => .error .typeError                     -- (already rejected above)
     | some ctSize =>
-    if fbitsize > 8 * ctSize then .error .typeError else   -- "exceeds the width of the type"
-    let fieldOffsetBytes := alignDown byteoffset falign
-    if fbitsize = 0 then
-      if f.named then .error .typeError else       -- "is declared with :0"
-      -- GCC's notion of "ftype :0;": pad byteoffset to a value aligned for "ftype"
-      let fieldOffsetBytes :=
-        if roundupBytes byteoffset bitoffset > fieldOffsetBytes
-        then fieldOffsetBytes + falign else fieldOffsetBytes
-      .ok (St.bump alignment fieldOffsetBytes 0 s.byteoffsetmax, [])
-    else
-      -- GCC's algorithm
-      let bitsAlreadyOccupied := (byteoffset - fieldOffsetBytes) * 8 + bitoffset
-      if bitsAlreadyOccupied + fbitsize > 8 * ctSize then
-        -- it would not fit, we need to start at the next allowed position
-        if sfPacked && bitsAlreadyOccupied % 8 ≠ 0 then .error .notImplemented else
-        let fieldOffsetBytes := fieldOffsetBytes + falign
-        let byteoffset := fieldOffsetBytes
-        let bitoffset := 0 + fbitsize
-        let outs : List CField :=
-          if f.named then [{ offset := fieldOffsetBytes, bits := some (0, fbitsize), fsize := some ctSize }] else []
-        .ok (St.bump alignment (byteoffset + bitoffset / 8) (bitoffset % 8) s.byteoffsetmax, outs)
+    if LX.tooWide fbitsize ctSize then .error .typeError else   -- "exceeds the width of the type"
+    let fieldOffsetBytes := LX.fieldOffsetBytes byteoffset falign
+    if LX.isZeroWidth fbitsize then
+      if LX.namedCond fnamelen then .error .typeError else       -- "is declared with :0"
+      if LX.gccStyle sfMsvc then
+        -- GCC's notion of "ftype :0;": pad byteoffset to a value aligned for "ftype"
+        let fieldOffsetBytes :=
+          if LX.zeroWidthPad byteoffset bitoffset fieldOffsetBytes
+          then LX.nextUnit fieldOffsetBytes falign else fieldOffsetBytes
+        .ok (St.bump alignment (LX.zeroWidthByteoffset fieldOffsetBytes) LX.zeroWidthBitoffset s.byteoffsetmax, [])
       else
-        let bitshift := bitsAlreadyOccupied
-        let bitoffset := bitoffset + fbitsize
+        .ok (St.bump alignment byteoffset bitoffset s.byteoffsetmax, [])   -- MSVC: not on this platform
+    else
+      -- GCC's algorithm (`if (!(sflags & SF_MSVC_BITFIELDS))`; the MSVC branch is in Model/LayoutFlags.lean)
+      let bitsAlreadyOccupied := LX.bitsAlreadyOccupied byteoffset fieldOffsetBytes bitoffset
+      if LX.fitFails bitsAlreadyOccupied fbitsize ctSize then
+        -- it would not fit, we need to start at the next allowed position
+        if LX.packedReuse (flagVal sfPacked) bitsAlreadyOccupied then .error .notImplemented else
+        let fieldOffsetBytes := LX.nextUnit fieldOffsetBytes falign
+        let byteoffset := LX.noFitByteoffset fieldOffsetBytes
+        let bitshift := LX.noFitBitshift
+        let bitoffset := LX.bitoffsetAdd LX.noFitBitoffset fbitsize
         let outs : List CField :=
-          if f.named then [{ offset := fieldOffsetBytes, bits := some (bitshift, fbitsize), fsize := some ctSize }] else []
-        .ok (St.bump alignment (byteoffset + bitoffset / 8) (bitoffset % 8) s.byteoffsetmax, outs)
+          if LX.namedCond fnamelen then
+            [{ offset := LX.bfOffset fieldOffsetBytes, bits := some (LX.bfBitshift bitshift, LX.bfBitsize fbitsize),
+               fsize := some ctSize }]
+          else []
+        .ok (St.bump alignment (LX.byteoffsetCarry byteoffset bitoffset) (LX.bitoffsetMask bitoffset)
+              s.byteoffsetmax, outs)
+      else
+        let bitshift := LX.fitBitshift bitsAlreadyOccupied
+        let bitoffset := LX.bitoffsetAdd bitoffset fbitsize
+        let outs : List CField :=
+          if LX.namedCond fnamelen then
+            [{ offset := LX.bfOffset fieldOffsetBytes, bits := some (LX.bfBitshift bitshift, LX.bfBitsize fbitsize),
+               fsize := some ctSize }]
+          else []
+        .ok (St.bump alignment (LX.byteoffsetCarry byteoffset bitoffset) (LX.bitoffsetMask bitoffset)
+              s.byteoffsetmax, outs)
 
 /-- the whole field loop -/
 def loopC (isUnion : Bool) (pack : Nat) (sfPacked : Bool) :
@@ -164,8 +206,9 @@ if (alignedsize == 0) alignedsize = 1;
 totalsize = alignedsize;  totalalignment = alignment;
 ``` -/
 def finishC (s : St) (fields : List CField) : CLayout :=
-  let alignedsize := alignUp s.byteoffsetmax s.alignment
-  { size := if alignedsize = 0 then 1 else alignedsize, align := s.alignment, fields := fields }
+  let alignedsize := LX.alignedSize s.byteoffsetmax s.alignment
+  let alignedsize := if LX.sizeIsZero alignedsize then LX.sizeIfZero else alignedsize
+  { size := LX.totalSize alignedsize, align := LX.totalAlignment s.alignment, fields := fields }
 
 /-- `complete_struct_or_union(BType, lst, self, -1, -1, *extra_flags)` for `tp.packed = p` -/
 def completeC (isUnion : Bool) (p : Nat) (fields : List (FField CField)) : Except Reject CLayout :=
